@@ -99,7 +99,7 @@ impl Prop for C18 {
     }
 
     fn cases(tier: Tier) -> u64 {
-        tier.pick(30_000, 1_000_000)
+        tier.pick(60_000, 1_000_000)
     }
 
     fn strategy(tier: Tier) -> BoxedStrategy<Case> {
